@@ -109,4 +109,171 @@ end
 def denoteImpl (S : ScanI) (p : Pat) (c : Nat) : Option (Nat × Caps) :=
   (semI S 1 (dropTrailing true p) c Kont.done).map fun (c', w) => (c', w ++ [(0, c)])
 
+/-! ## Footprint: what the semantics asks the image (perturbation clause of C11)
+
+"… and rejects a layout that differs in any byte the pattern constrains."  The semantics talks to the image
+through four kinds of questions; `footprint S p c` lists, in order, the questions `denoteImpl S p c` asks —
+on the accepting path AND on every failed candidate of a `[a-b]` / failed alternative before it.
+`Thm/C11Frame.lean`: the answer of `denoteImpl` depends on the image only through the answers to these questions
+(`C11_impl_footprint`); for straight-line patterns (no `[a-b]`, no `( | )`) the literal bytes `constrained S p c`
+are all in the footprint, hold on every accepted layout, and a layout that differs in one of them is rejected. -/
+
+/-- a question the semantics asks the image -/
+inductive Query
+  /-- compare the byte at `a` with a literal of the pattern (exact byte `hh` / a byte of quoted text) -/
+  | lit (a : Nat)
+  /-- read a `w`-byte operand at `a`: jump operand, pointer, typed read `i?` / `u?` -/
+  | read (w a : Nat)
+  /-- translate the pointer value `v` to an rva -/
+  | pointer (v : Nat)
+  /-- how many bytes are addressable from `a` on (bounds the candidates of a `[a-b]`) -/
+  | slice (a : Nat)
+  deriving DecidableEq, Repr
+
+/-- the images `S` and `S'` answer the question alike -/
+def Query.same (S S' : ScanI) : Query → Prop
+  | .lit a => S'.read 1 a = S.read 1 a
+  | .read w a => S'.read w a = S.read w a
+  | .pointer v => S'.pointer v = S.pointer v
+  | .slice a => (S'.slice a).map (·.2) = (S.slice a).map (·.2)
+
+/-- the comparisons `matchBytes` makes: up to and including the first mismatch -/
+def fpMatch (S : ScanI) : List Nat → Nat → List Query
+  | [], _ => []
+  | b :: bs, c => .lit c :: (if S.read 1 c = some b then fpMatch S bs (c + 1) else [])
+
+/-- the questions `Jump.target` asks -/
+def Jump.fp (S : ScanI) (j : Jump) (c : Nat) : List Query :=
+  match j with
+  | .j1 => [.read 1 c]
+  | .j4 => [.read 4 c]
+  | .ptr => .read S.fmt.ptrSize c :: (match S.read S.fmt.ptrSize c with | some v => [.pointer v] | none => [])
+
+/-- the questions `semItem` asks for an item without sub-patterns -/
+def fpItem (S : ScanI) : Item → Nat → List Query
+  | .byte b, c => fpMatch S [b] c
+  | .str bs, c => fpMatch S (bs.map UInt8.toNat) c
+  | .jump j, c => j.fp S c
+  | .readI w, c => [.read w c]
+  | .readU w, c => [.read w c]
+  | _, _ => []
+
+/-- the questions of the candidates `i, i+1, …` of a `firstSome`, up to and including the first success -/
+def fpFirst {α : Type} (f : Nat → Option α) (g : Nat → List Query) : Nat → Nat → List Query
+  | 0, _ => []
+  | n + 1, i => g i ++ (match f i with | some _ => [] | none => fpFirst f g n (i + 1))
+
+mutual
+/-- the questions `semI S k items c κ` asks, `φ c1` being those of the continuation `κ` at `c1` -/
+def fpI (S : ScanI) (k : Nat) : List Item → Nat → Kont → (Nat → List Query) → List Query
+  | [], c, _, φ => φ c
+  | .range a b :: r, c, κ, φ =>
+    .slice (addRva c a) ::
+    match S.slice (addRva c a) with
+    | none => []
+    | some (_, len) =>
+      fpFirst (fun i => semI S k r (addRva (addRva c a) i) κ) (fun i => fpI S k r (addRva (addRva c a) i) κ φ)
+        (min (b - a) len) 0
+  | .group j _ body :: r, c, κ, φ =>
+    j.fp S c ++
+    match j.target S c with
+    | none => []
+    | some t =>
+      fpI S k body t Kont.done (fun _ => []) ++
+      match semI S k body t Kont.done with
+      | none => []
+      | some _ => fpI S (slotsItems k body) r (addRva c (j.width S)) κ φ
+  | .alt bodies :: r, c, κ, φ =>
+    fpAltsI S k bodies c (fun c1 => semI S (slotsAlts k bodies) r c1 κ) (fun c1 => fpI S (slotsAlts k bodies) r c1 κ φ)
+  | it :: r, c, κ, φ =>
+    fpItem S it c ++
+    match semItem S k it c with
+    | none => []
+    | some (c1, _) => fpI S (slotsItem k it) r c1 κ φ
+/-- the questions `semAltsI S k bodies c κ` asks -/
+def fpAltsI (S : ScanI) (k : Nat) : List (List Item) → Nat → Kont → (Nat → List Query) → List Query
+  | [], _, _, _ => []
+  | [b], c, κ, φ => fpI S k b c κ φ
+  | b :: bs, c, κ, φ =>
+    fpI S k b c Kont.done (fun _ => []) ++
+    match semI S k b c Kont.done with
+    | some (c1, _) => φ c1
+    | none => fpAltsI S k bs c κ φ
+end
+
+/-- **the footprint of `denoteImpl S p c`** -/
+def footprint (S : ScanI) (p : Pat) (c : Nat) : List Query :=
+  fpI S 1 (dropTrailing true p) c Kont.done (fun _ => [])
+
+mutual
+def straightItem : Item → Bool
+  | .range _ _ => false
+  | .alt _ => false
+  | .group _ _ body => straight body
+  | _ => true
+/-- straight-line patterns: no `[a-b]` and no `( | )` at any depth (brace groups and jumps are allowed) -/
+def straight : List Item → Bool
+  | [] => true
+  | it :: r => straightItem it && straight r
+end
+
+/-- the (address, value) pairs `matchBytes` demands: up to and including the first mismatch -/
+def consMatch (S : ScanI) : List Nat → Nat → List (Nat × Nat)
+  | [], _ => []
+  | b :: bs, c => (c, b) :: (if S.read 1 c = some b then consMatch S bs (c + 1) else [])
+
+def consItem (S : ScanI) : Item → Nat → List (Nat × Nat)
+  | .byte b, c => consMatch S [b] c
+  | .str bs, c => consMatch S (bs.map UInt8.toNat) c
+  | _, _ => []
+
+/-- the cursor behind a straight-line item that matches at `c`; `none`: it does not match (or is a `[a-b]` / `( | )`) -/
+def advanceI (S : ScanI) (k : Nat) : Item → Nat → Option Nat
+  | .range _ _, _ => none
+  | .alt _, _ => none
+  | .group j _ body, c =>
+    match j.target S c with
+    | none => none
+    | some t => (semI S k body t Kont.done).map fun _ => addRva c (j.width S)
+  | it, c => (semItem S k it c).map (·.1)
+
+mutual
+/-- the literal bytes one item constrains: its own (exact byte, quoted text) or those of its brace body at the
+jump's destination -/
+def consIt (S : ScanI) (k : Nat) : Item → Nat → List (Nat × Nat)
+  | .byte b, c => consMatch S [b] c
+  | .str bs, c => consMatch S (bs.map UInt8.toNat) c
+  | .group j _ body, c =>
+    match j.target S c with
+    | none => []
+    | some t => consI S k body t
+  | _, _ => []
+/-- the literal bytes a straight-line sequence constrains at cursor `c`: (address, required value), in the order
+the semantics compares them, jump destinations taken from the image; the list ends at the first item that fails
+(and at the first `[a-b]` / `( | )`) -/
+def consI (S : ScanI) (k : Nat) : List Item → Nat → List (Nat × Nat)
+  | [], _ => []
+  | it :: r, c =>
+    consIt S k it c ++
+    match advanceI S k it c with
+    | none => []
+    | some c1 => consI S (slotsItem k it) r c1
+end
+
+/-- **the bytes the pattern constrains** on the image `S` at cursor `c`: every literal byte of a straight-line
+pattern (`C11_impl_constrained_complete`); in general those up to the first `[a-b]` / `( | )` of each sequence -/
+def constrained (S : ScanI) (p : Pat) (c : Nat) : List (Nat × Nat) := consI S 1 (dropTrailing true p) c
+
+mutual
+def litCountItem : Item → Nat
+  | .byte _ => 1
+  | .str bs => bs.length
+  | .group _ _ body => litCount body
+  | _ => 0
+/-- the number of literal bytes (exact bytes and bytes of quoted text) of a straight-line sequence, at any depth -/
+def litCount : List Item → Nat
+  | [] => 0
+  | it :: r => litCountItem it + litCount r
+end
+
 end Pelite.PatSem
